@@ -301,6 +301,12 @@ example :
     (stepBody C06Ex.mI {} C06Ex.sI).live.tstate 0 = .working :=
   ⟨by decide, C06Ex.sI_inv, by decide +kernel, by decide +kernel, by decide +kernel⟩
 
+/-- the only premise of `C06_idle_run'` is the `init_state` flag; the incoming state may be
+anything, e.g. one that is not clean outside the index ranges -/
+example : ({} : Params).initState = true ∧
+    ¬ OutClean C06Ex.mI ({ Live.empty with wasg := fun _ => [3] } : Live) :=
+  ⟨rfl, fun h => by have := h.2.1 5 (by decide); simp at this⟩
+
 #print axioms C06_ready
 #print axioms C06_ready_deps
 #print axioms C06_ready_updTrace
